@@ -106,7 +106,7 @@ reg("C17",
          "distinct = distinct (transport, mode, plan, sizes, observed-event bits) signatures",
     assumptions=["sends that fail with a connection errno may already be counted in from_app (accepted, then the flush failed): slack of one message there"])
 
-EVLOOP = ENGINE + ["vdns.c", "vnet.c", "evloop.c"]
+EVLOOP = ENGINE + ["vdns.c", "vnet.c", "vctl.c", "evloop.c"]
 
 reg("C04",
     title="event-loop contract is live (bounded form): no lost wake-ups, blocking calls return",
